@@ -99,7 +99,8 @@ Definition cast_to (d : dtype) (v : val) : val :=
   | _, _ => v
   end.
 
-Definition cast_nan (d : dtype) (v : val) : val := cast_to (resolve_nan d) v.
+(* (the resolved dtype is computed once per array, not once per cell) *)
+Definition cast_nan (d : dtype) : val -> val := let r := resolve_nan d in fun v => cast_to r v.
 
 Fixpoint collect (l : list (option val)) : res (list val) :=
   match l with
